@@ -206,6 +206,7 @@ def run(tier: str, seed: int, replay: str | None = None) -> int:
     rng = random.Random(seed * 104729 + 7)
     n_cases = 1500 if tier == "quick" else 12000
     n_chain = 400 if tier == "quick" else 3000
+    n_ren = 400 if tier == "quick" else 3000
     cases = []
     if replay:
         data = json.loads(Path(replay).read_text())
@@ -230,6 +231,11 @@ def run(tier: str, seed: int, replay: str | None = None) -> int:
             files = {f"g{9 - j}.f90": "\n".join(_render_units({"units": [u]})) + "\n" for j, u in enumerate(P["units"])}
         cases.append((P, files))
 
+    for k in range(n_ren):
+        # renames on USE statements (with and without ONLY) next to same-named entities
+        P = G.gen_rename_project(rng)
+        cases.append((P, G.render_project(P, rng)))
+
     flats = [G.Flat(P) for P, _ in cases]
     reqs = []
     for F in flats:
@@ -245,6 +251,8 @@ def run(tier: str, seed: int, replay: str | None = None) -> int:
     kinds_hist: dict[str, int] = {}
     reuse_hist = {"sibling_same_type_name": 0, "inner_proc_shadows_host": 0, "two_modules_same_name": 0,
                   "module_vs_external": 0, "case_only_difference": 0, "undeclared_name_referenced": 0,
+                  "use_rename_without_only": 0, "use_rename_with_only": 0, "renamed_away_name_referenced_in_scope": 0,
+                  "renamed_away_name_referenced_expect_text": 0, "renamed_away_name_referenced_expect_other_entity": 0,
                   "variants_distinguishing_case": 0}
     distinct = set()
     samples = []
@@ -263,6 +271,7 @@ def run(tier: str, seed: int, replay: str | None = None) -> int:
             hist["alias_pairs"] += len(alias_obs)
             hist["alias_pairs_shared"] += sum(alias_obs)
             _reuse_stats(F, frames, reuse_hist)
+            _rename_stats(F, exp, reuse_hist)
             if len({json.dumps(sorted(model[v].items())) for v in VARIANTS}) > 1:
                 reuse_hist["variants_distinguishing_case"] += 1
             # Lean spec vs python oracle (both independent of the mechanism)
@@ -370,6 +379,7 @@ def run(tier: str, seed: int, replay: str | None = None) -> int:
         fixed_cases=n_fixed,
         random_cases=n_cases,
         chain_cases=n_chain,
+        rename_cases=n_ren,
     )
     rep.assumptions += [
         "implicit typing, IMPORT statements, BLOCK-local declarations, submodules, common blocks and namelists are outside the abstract projects",
@@ -386,6 +396,28 @@ def _render_units(P):
     for u in P["units"]:
         G.render_scope(u, out)
     return out
+
+
+def _rename_stats(F, exp, h):
+    """how often the generated projects exercise renames on USE statements, and references to a
+    name that a USE without ONLY renamed away in the very scope of the reference"""
+    for sidx, rec in enumerate(F.scopes):
+        gone = set()
+        for u in rec["node"]["uses"]:
+            if u["only"] is None and u.get("ren"):
+                h["use_rename_without_only"] += 1
+                gone |= {r.lower() for l, r in u["ren"] if l.lower() != r.lower()}
+            elif u["only"] is not None and any(l.lower() != r.lower() for l, r in u["only"]):
+                h["use_rename_with_only"] += 1
+        if not gone:
+            continue
+        for i in rec["slots"]:
+            if F.slots[i]["name"].lower() in gone and not F.slots[i].get("ctor"):
+                h["renamed_away_name_referenced_in_scope"] += 1
+                if exp[i] is None:
+                    h["renamed_away_name_referenced_expect_text"] += 1
+                elif exp[i] != G.SKIP:
+                    h["renamed_away_name_referenced_expect_other_entity"] += 1
 
 
 def _reuse_stats(F, frames, h):
